@@ -4,7 +4,7 @@ budget=${1:-25}
 cd /verif
 for d in seeded/*/; do
   id=$(basename $d)
-  case $id in NEUTRAL*|OUTSIDE*) continue;; esac
+  case $id in NEUTRAL*|OUTSIDE*|SUPERSEDED*) continue;; esac
   prop=$(python3 -c "import json;print(json.load(open('$d/meta.json'))['breaks'])")
   out=$(tools/trymutant.sh /verif/$d/patch.diff $budget $prop 2>&1)
   if echo "$out" | grep -q "^VIOLATION\|^violation"; then echo "CAUGHT  $id ($prop)"; else echo "MISSED  $id ($prop): $(echo "$out" | tail -1 | cut -c1-120)"; fi
